@@ -17,6 +17,15 @@ CHECKS = {
    text="For every monotonic term and all valid parameters and all y in (0,height): tsukamoto(y) is finite, membership(tsukamoto(y)) == y through the membership contract (closed form proved in C03), z is monotone in y in the term's direction, no data-dependent Python control (element-wise). Static: a class overrides tsukamoto iff its is_monotonic() returns True; Term.tsukamoto raises unconditionally.",
    note=A_NUM),
 }
+A_WIRE = "Assumes A-LISTVAL (list fields are values: no list object shared between two fields), A-ACTVAL (Activated terms stored in a fuzzy output are never mutated; constructor/degree setter verified against the value model), A-WF (well-formedness of loaded rules/engines is a heap invariant established by the loaders), interface contracts of the abstract methods (hedge, compute, membership are pure functions of receiver and arguments), A-REAL, A-NP, A-PY, A-MSG, A-LOG, solvers and executor soundness."
+CHECKS.update({
+ "C07": dict(cat="other", design="8/C07", tech="loop-invariant VCs from the real AST of Consequent.modify / Rule.trigger / Activated.__init__ over a Boogie-style heap; z3; native witness templates",
+   text="Deductive: Consequent.modify (two nested loops, invariants keyed by loop ordinal, frame, raises), Rule.trigger (against the modify contract) and the Activated constructor/degree setter are verified from /repo's AST for consequents of any length, any hedges, any degree incl. NaN/+-inf. On the pinned tree ONE obligation is refuted by a genuine defect (known finding C07-1: hedges of an earlier conclusion leak into later ones, replayed natively); it is recorded, not repaired, so this is not a completed proof: the same contract is proved outside the recorded failing region (residual obligations) and any other refutation is still reported.",
+   note=A_WIRE + " Known finding C07-1 is open: discharged < obligations by exactly that obligation."),
+ "C08": dict(cat="proof", design="8/C08", tech="loop-invariant VCs with history (ghost) functions from the real AST of General/First/Last/Threshold.activate; comparator table read from the AST; z3; bounded run-time stand-in for Highest/Lowest/Proportional",
+   text="General, First, Last and Threshold: for rule blocks of ANY length the loop is proved to compute every loaded rule's degree as weight x antecedent value on the outputs accumulated so far, to trigger exactly the rules the definition selects (count, positivity, threshold, comparator meaning) in order, to mark triggered only for positive degrees, to leave unloaded rules deactivated, to write nothing else, and (non-General) to reject batches before any selection. Highest, Lowest and Proportional are covered only by a bounded run-time stand-in (level B, random rule blocks of 1-8 rules with ties, zeros, NaN, unloaded/disabled rules), never counted as proved.",
+   note=A_WIRE + " Callee contracts used: Rule.activate_with (proved in C06), Rule.trigger (proved in C07)."),
+})
 TODO = {}
 def main():
     props = [json.loads(l) for l in open(os.path.join(HERE, "properties.jsonl"))]
